@@ -207,9 +207,11 @@ func c31(r *core.Run) {
 		}
 	}
 	r.Floor("C31.W1", "stores to retrieveChainTraffic", nw, 2)
+	c31Resets(r, funcs)
 }
 
 func c33(r *core.Run) {
+	c33RestoreSet(r)
 	w := r.W
 	funcs := w.PkgFuncs("pkg/settlement/traffic")
 	la := core.NewLockAnalysis(w, "pkg/settlement/traffic")
